@@ -149,6 +149,23 @@ class _Conv:
             raw = n.get("inner", [])
             # [init, condvar, cond, inc, body]
             init = self.stmts(raw[0]) if raw[0] and raw[0].get("kind") else []
+            # `for (i = 0, p = a, q = b; ...)`: one statement per operand
+            init2 = []
+            for st_ in init:
+                if st_ is not None and st_.k == "expr" and st_.a[0].k == "comma":
+                    parts_ = []
+
+                    def unfold_(x):
+                        if x.k == "comma":
+                            unfold_(x.a[0])
+                            unfold_(x.a[1])
+                        else:
+                            parts_.append(x)
+                    unfold_(st_.a[0])
+                    init2.extend(self.expr_stmt(x, ln) for x in parts_)
+                else:
+                    init2.append(st_)
+            init = init2
             cond = self.expr(raw[2]) if raw[2] and raw[2].get("kind") else None
             inc = []
             if raw[3] and raw[3].get("kind"):
